@@ -191,3 +191,351 @@ theorem remove_caps {cfg : Cfg σ} {l : Lru} (k : Nat) (h : Caps cfg l) : Caps c
       | (have := length_erase_add _ _ hm; refine ⟨?_, ?_, ?_⟩ <;> simp <;> omega)
 
 end QbiceVerif.TinyLfu
+
+namespace QbiceVerif.TinyLfu
+
+variable {σ : Type}
+
+/-! ### one policy call -/
+
+/-- `l'` tracks the keys of `l`, except that one occurrence of a key may have been dropped — and then
+the storage (after the call) no longer holds that key. -/
+def DropRel (l l' : Lru) (st' : Storage) : Prop :=
+  (∀ a, l'.cnt a = l.cnt a) ∨ ∃ x, sGet st' x = none ∧ ∀ a, l'.cnt a + (if x = a then 1 else 0) = l.cnt a
+
+theorem DropRel.wf {l l' : Lru} {st' : Storage} (h : DropRel l l' st') (hw : l.WF) : l'.WF := fun a => by
+  rcases h with h | ⟨x, _, h⟩
+  · rw [h a]; exact hw a
+  · have := h a; have := hw a; omega
+
+theorem DropRel.leaves {l l' : Lru} {st' : Storage} (h : DropRel l l' st') (a : Nat) (h1 : l.has a) (h2 : ¬ l'.has a) :
+    sGet st' a = none := by
+  unfold Lru.has at h1 h2
+  rcases h with h | ⟨x, hx, h⟩
+  · rw [h a] at h2; exact absurd h1 h2
+  · have := h a
+    by_cases e : x = a
+    · subst e; exact hx
+    · simp [e] at this; omega
+
+theorem DropRel.mono {l l' : Lru} {st' : Storage} (h : DropRel l l' st') (a : Nat) (h1 : l'.has a) : l.has a := by
+  unfold Lru.has at h1 ⊢
+  rcases h with h | ⟨x, _, h⟩
+  · rw [← h a]; exact h1
+  · have := h a; omega
+
+/-- what the region lists may do during one policy call, relative to the storage after it -/
+structure PolStep (cfg : Cfg σ) (pins : List Nat) (c c' : Core σ) : Prop where
+  wf : c.lru.WF → c'.lru.WF
+  /-- a key the policy stops tracking is no longer in the storage -/
+  leaves : ∀ a, c.lru.has a → ¬ c'.lru.has a → sGet c'.st a = none
+  caps : Caps cfg c.lru → Caps cfg c'.lru
+  pinnedNew : ∀ a, a ∈ c'.lru.pinned → a ∈ c.lru.pinned ∨ ∃ v, sGet c'.st a = some v ∧ cfg.tok a v ∈ pins
+
+theorem evictOrPin_polstep (cfg : Cfg σ) (pins : List Nat) (c : Core σ) (x : Nat) (rest : Lru)
+    (hr : ∀ a, rest.cnt a + (if x = a then 1 else 0) = c.lru.cnt a) (hp : rest.pinned = c.lru.pinned) :
+    DropRel c.lru (evictOrPin cfg pins c x rest).lru (evictOrPin cfg pins c x rest).st ∧
+    (∀ a, a ∈ (evictOrPin cfg pins c x rest).lru.pinned → a ∈ c.lru.pinned ∨
+        ∃ v, sGet (evictOrPin cfg pins c x rest).st a = some v ∧ cfg.tok a v ∈ pins) ∧
+    (evictOrPin cfg pins c x rest).lru.window = rest.window ∧
+    (evictOrPin cfg pins c x rest).lru.probation = rest.probation ∧
+    (evictOrPin cfg pins c x rest).lru.prot = rest.prot := by
+  rcases evictOrPin_cases cfg pins c x rest with ⟨h1, h2⟩ | ⟨h1, h2, v, h3, h4⟩
+  · refine ⟨Or.inr ⟨x, h2, ?_⟩, ?_, ?_, ?_, ?_⟩
+    · rw [h1]; exact hr
+    · intro a ha; rw [h1, hp] at ha; exact Or.inl ha
+    all_goals rw [h1]
+  · refine ⟨Or.inl ?_, ?_, ?_, ?_, ?_⟩
+    · intro a; rw [h1]; have := hr a
+      simp only [Lru.cnt, List.count_append, List.count_singleton, beq_iff_eq] at this ⊢; omega
+    · intro a ha; rw [h1] at ha; simp only [List.mem_append, List.mem_singleton] at ha
+      rcases ha with ha | ha
+      · rw [hp] at ha; exact Or.inl ha
+      · subst ha; right; rw [h2]; exact ⟨v, h3, h4⟩
+    all_goals rw [h1]
+
+theorem duel_polstep (cfg : Cfg σ) (pins : List Nat) (c : Core σ) (cand : Nat) (w : List Nat) (vict : Nat) (p : List Nat)
+    (hw : c.lru.window = cand :: w) (hp : c.lru.probation = vict :: p) :
+    DropRel c.lru (duel cfg pins c cand w vict p).lru (duel cfg pins c cand w vict p).st ∧
+    (∀ a, a ∈ (duel cfg pins c cand w vict p).lru.pinned → a ∈ c.lru.pinned ∨
+        ∃ v, sGet (duel cfg pins c cand w vict p).st a = some v ∧ cfg.tok a v ∈ pins) ∧
+    (duel cfg pins c cand w vict p).lru.window = w ∧
+    (duel cfg pins c cand w vict p).lru.probation.length = c.lru.probation.length ∧
+    (duel cfg pins c cand w vict p).lru.prot = c.lru.prot := by
+  unfold duel
+  split
+  · have hr : ∀ a, ({ c.lru with probation := p } : Lru).cnt a + (if vict = a then 1 else 0) = c.lru.cnt a := by
+      intro a; simp only [Lru.cnt, hp, List.count_cons, beq_iff_eq]; omega
+    obtain ⟨h1, h2, h3, h4, h5⟩ := evictOrPin_polstep cfg pins c vict { c.lru with probation := p } hr rfl
+    generalize evictOrPin cfg pins c vict { c.lru with probation := p } = e at h1 h2 h3 h4 h5 ⊢
+    simp only [] at h3 h4 h5
+    refine ⟨?_, h2, rfl, ?_, h5⟩
+    · rcases h1 with h1 | ⟨x, hx, h1⟩
+      · left; intro a; have := h1 a
+        simp only [Lru.cnt, h4, h3, hw, List.count_cons, List.count_append, List.count_singleton, List.count_nil, beq_iff_eq] at this ⊢
+        omega
+      · right; refine ⟨x, hx, ?_⟩; intro a; have := h1 a
+        simp only [Lru.cnt, h4, h3, hw, List.count_cons, List.count_append, List.count_singleton, List.count_nil, beq_iff_eq] at this ⊢
+        omega
+    · simp [h4, hp]
+  · have hr : ∀ a, ({ c.lru with window := w } : Lru).cnt a + (if cand = a then 1 else 0) = c.lru.cnt a := by
+      intro a; simp only [Lru.cnt, hw, List.count_cons, beq_iff_eq]; omega
+    obtain ⟨h1, h2, h3, h4, h5⟩ := evictOrPin_polstep cfg pins c cand { c.lru with window := w } hr rfl
+    exact ⟨h1, h2, h3, by rw [h4], h5⟩
+
+theorem afterNewEntry_polstep {cfg : Cfg σ} {pins : List Nat} {c c' : Core σ}
+    (h : afterNewEntry cfg pins c = .ok c') :
+    DropRel c.lru c'.lru c'.st ∧
+    (∀ a, a ∈ c'.lru.pinned → a ∈ c.lru.pinned ∨ ∃ v, sGet c'.st a = some v ∧ cfg.tok a v ∈ pins) ∧
+    (c.lru.window.length ≤ cfg.windowCap + 1 → c.lru.probation.length + c.lru.prot.length ≤ cfg.mainLimit →
+      c.lru.prot.length ≤ cfg.protectedCap → Caps cfg c'.lru) := by
+  unfold afterNewEntry at h
+  split at h
+  · rename_i hle; cases h
+    exact ⟨Or.inl fun _ => rfl, fun a ha => Or.inl ha, fun _ h2 h3 => ⟨hle, h2, h3⟩⟩
+  · rename_i hgt
+    split at h
+    · rename_i hlt
+      split at h
+      · cases h; rename_i hw; simp [hw] at hgt
+      · rename_i o w hw; cases h
+        refine ⟨Or.inl ?_, fun a ha => Or.inl ha, ?_⟩
+        · intro a; simp only [Lru.cnt, hw, List.count_cons, List.count_append, List.count_singleton, List.count_nil, beq_iff_eq]; omega
+        · intro h1 h2 h3; refine ⟨?_, ?_, h3⟩
+          · simp [hw] at h1 ⊢; omega
+          · simp at hlt ⊢; omega
+    · rename_i hge
+      split at h
+      · cases h
+      · rename_i cand w hw
+        split at h
+        · cases h
+        · rename_i vict p hp; cases h
+          obtain ⟨h1, h2, h3, h4, h5⟩ := duel_polstep cfg pins c cand w vict p hw hp
+          refine ⟨h1, h2, ?_⟩
+          intro g1 g2 g3; refine ⟨?_, ?_, ?_⟩
+          · rw [h3]; simp [hw] at g1; omega
+          · rw [h4, h5]; exact g2
+          · rw [h5]; exact g3
+
+theorem onWrite_polstep {cfg : Cfg σ} {pins : List Nat} {c c' : Core σ} {k : Nat}
+    (h : onWrite cfg pins c k = .ok c') :
+    PolStep cfg pins c c' ∧ (c'.lru.has k ∨ sGet c'.st k = none) := by
+  unfold onWrite at h
+  split at h
+  · rename_i hf; cases h
+    have hf' : (c.lru.hit k cfg.protectedCap).2 = true := hf
+    refine ⟨⟨?_, ?_, ?_, ?_⟩, Or.inl ?_⟩
+    · intro hw; exact hit_wf _ _ hw
+    · intro a h1 h2; exact absurd ((hit_has _ _ _ _).mpr h1) h2
+    · intro hc; exact hit_caps k hc
+    · intro a ha; left; simpa [onReadHit, hit_pinned] using ha
+    · exact (hit_has _ _ _ _).mpr ((hit_found _ _ _).mp hf')
+  · rename_i hf
+    have hf' : (c.lru.hit k cfg.protectedCap).2 = false := by simpa [onReadHit] using hf
+    obtain ⟨hl, hnk⟩ := hit_not_found hf'
+    have hlru : (onReadHit cfg c k).1.lru = c.lru := by simp [onReadHit, hl]
+    split at h
+    · cases h
+    · obtain ⟨h1, h2, h3⟩ := afterNewEntry_polstep h
+      simp only [hlru] at h1 h2 h3
+      have hnk0 : c.lru.cnt k = 0 := by unfold Lru.has at hnk; omega
+      have hcnt : ∀ a, ({ c.lru with window := c.lru.window ++ [k] } : Lru).cnt a = c.lru.cnt a + (if k = a then 1 else 0) := by
+        intro a; simp only [Lru.cnt, List.count_append, List.count_singleton, List.count_nil, List.count_cons, beq_iff_eq]; omega
+      refine ⟨⟨?_, ?_, ?_, h2⟩, ?_⟩
+      · intro hw; apply h1.wf; intro a; rw [hcnt a]
+        by_cases e : k = a
+        · subst e; simp [hnk0]
+        · simp [e]; exact hw a
+      · intro a ha hna; apply h1.leaves a _ hna
+        unfold Lru.has at ha ⊢; rw [hcnt a]; omega
+      · intro hc; apply h3
+        · simp; have := hc.win; omega
+        · exact hc.main
+        · exact hc.prot
+      · by_cases hk : c'.lru.has k
+        · exact Or.inl hk
+        · right; apply h1.leaves k _ hk
+          unfold Lru.has; rw [hcnt k]; simp
+
+/-! ### `Policy::unpin` -/
+
+theorem moveKeyToProbation_pinned {l : Lru} {k : Nat} (h : l.regionOf k = some .pinned) :
+    l.moveKeyToProbation k = .ok { l with pinned := l.pinned.erase k, probation := l.probation ++ [k] } := by
+  unfold Lru.moveKeyToProbation; simp [h]
+
+theorem regionOf_pinned_of_wf {l : Lru} {k : Nat} (hw : l.WF) (hk : k ∈ l.pinned) : l.regionOf k = some .pinned := by
+  have h := hw k
+  have hp := List.count_pos_iff.mpr hk
+  unfold Lru.cnt at h
+  rw [regionOf_pinned_iff]
+  refine ⟨?_, ?_, ?_, hk⟩ <;> (intro hm; have := List.count_pos_iff.mpr hm; omega)
+
+theorem unpin_polstep {cfg : Cfg σ} {pins : List Nat} {c c' : Core σ} {k : Nat}
+    (h : unpin cfg pins c k = .ok c') (hpm : cfg.protectedCap < cfg.mainLimit) :
+    PolStep cfg pins c c' ∧
+    (c.lru.WF → k ∈ c'.lru.pinned → ∃ v, sGet c'.st k = some v ∧ cfg.tok k v ∈ pins) := by
+  unfold unpin at h
+  split at h
+  · rename_i hreg; cases h
+    refine ⟨⟨fun h => h, fun a h1 h2 => absurd h1 h2, fun h => h, fun a ha => Or.inl ha⟩, ?_⟩
+    intro hw hk; exact absurd (regionOf_pinned_of_wf hw hk) hreg
+  · rename_i hreg
+    have hreg : c.lru.regionOf k = some .pinned := Classical.not_not.mp hreg
+    obtain ⟨k1, k2, k3, k4⟩ := (regionOf_pinned_iff _ _).mp hreg
+    split at h
+    · -- empty probation (repaired code only)
+      rename_i hp0
+      split at h
+      · rw [moveKeyToProbation_pinned hreg] at h
+        simp only [] at h; cases h
+        have hcnt : ∀ a, ({ c.lru with pinned := c.lru.pinned.erase k, probation := c.lru.probation ++ [k] } : Lru).cnt a = c.lru.cnt a := by
+          intro a; have := count_erase_add c.lru.pinned a k k4
+          simp only [Lru.cnt, List.count_append, List.count_singleton, List.count_nil, List.count_cons, beq_iff_eq]; omega
+        refine ⟨⟨?_, ?_, ?_, ?_⟩, ?_⟩
+        · intro hw a; rw [hcnt a]; exact hw a
+        · intro a h1 h2; unfold Lru.has at h1 h2; rw [hcnt a] at h2; exact absurd h1 h2
+        · intro hc; refine ⟨hc.win, ?_, hc.prot⟩
+          have := hc.prot; simp [hp0]; omega
+        · intro a ha; exact Or.inl (List.mem_of_mem_erase ha)
+        · intro hw hk
+          have h1 := hw k; have h2 := List.count_pos_iff.mpr k4
+          have h3 : List.count k (c.lru.pinned.erase k) = 0 := by rw [List.count_erase_self]; unfold Lru.cnt at h1; omega
+          exact absurd (List.count_pos_iff.mpr hk) (by simp only [] at h3 ⊢; omega)
+      · cases h
+    · rename_i vict p hp
+      have kv : k ≠ vict := by intro e; apply k2; rw [hp, e]; simp
+      have kp : k ∉ p := by intro e; apply k2; rw [hp]; exact List.mem_cons_of_mem _ e
+      split at h
+      · -- the unpinned key wins the duel against the probation tail
+        simp only [] at h
+        rcases evictOrPin_cases cfg pins c vict { c.lru with probation := p } with ⟨e1, e2⟩ | ⟨e1, e2, v, e3, e4⟩
+        · have hreg' : (evictOrPin cfg pins c vict { c.lru with probation := p }).lru.regionOf k = some .pinned := by
+            rw [e1, regionOf_pinned_iff]; exact ⟨k1, kp, k3, k4⟩
+          rw [moveKeyToProbation_pinned hreg', e1] at h
+          generalize evictOrPin cfg pins c vict { c.lru with probation := p } = e at h e2
+          simp only [] at h; cases h
+          have hcnt : ∀ a, ({ window := c.lru.window, probation := p ++ [k], prot := c.lru.prot, pinned := c.lru.pinned.erase k } : Lru).cnt a
+              + (if vict = a then 1 else 0) = c.lru.cnt a := by
+            intro a; have := count_erase_add c.lru.pinned a k k4
+            simp only [Lru.cnt, hp, List.count_append, List.count_singleton, List.count_nil, List.count_cons, beq_iff_eq]; omega
+          have hd : DropRel c.lru { window := c.lru.window, probation := p ++ [k], prot := c.lru.prot, pinned := c.lru.pinned.erase k } e.st :=
+            Or.inr ⟨vict, e2, hcnt⟩
+          refine ⟨⟨hd.wf, hd.leaves, ?_, ?_⟩, ?_⟩
+          · intro hc; refine ⟨hc.win, ?_, hc.prot⟩
+            have := hc.main; simp [hp] at this ⊢; omega
+          · intro a ha; exact Or.inl (List.mem_of_mem_erase ha)
+          · intro hw hk
+            have h1 := hw k; have h2 := List.count_pos_iff.mpr k4
+            have h3 : List.count k (c.lru.pinned.erase k) = 0 := by rw [List.count_erase_self]; unfold Lru.cnt at h1; omega
+            exact absurd (List.count_pos_iff.mpr hk) (by simp only [] at h3 ⊢; omega)
+        · have k4' : k ∈ c.lru.pinned ++ [vict] := List.mem_append_left _ k4
+          have hreg' : (evictOrPin cfg pins c vict { c.lru with probation := p }).lru.regionOf k = some .pinned := by
+            rw [e1, regionOf_pinned_iff]; exact ⟨k1, kp, k3, k4'⟩
+          rw [moveKeyToProbation_pinned hreg', e1] at h
+          generalize evictOrPin cfg pins c vict { c.lru with probation := p } = e at h e2
+          simp only [] at h; cases h
+          have hcnt : ∀ a, ({ window := c.lru.window, probation := p ++ [k], prot := c.lru.prot, pinned := (c.lru.pinned ++ [vict]).erase k } : Lru).cnt a
+              = c.lru.cnt a := by
+            intro a; have := count_erase_add (c.lru.pinned ++ [vict]) a k k4'
+            simp only [Lru.cnt, hp, List.count_append, List.count_singleton, List.count_nil, List.count_cons, beq_iff_eq] at this ⊢; omega
+          refine ⟨⟨?_, ?_, ?_, ?_⟩, ?_⟩
+          · intro hw a; rw [hcnt a]; exact hw a
+          · intro a h1 h2; unfold Lru.has at h1 h2; rw [hcnt a] at h2; exact absurd h1 h2
+          · intro hc; refine ⟨hc.win, ?_, hc.prot⟩
+            have := hc.main; simp [hp] at this ⊢; omega
+          · intro a ha
+            have := List.mem_of_mem_erase ha
+            simp only [List.mem_append, List.mem_singleton] at this
+            rcases this with h | h
+            · exact Or.inl h
+            · subst h; right; rw [e2]; exact ⟨v, e3, e4⟩
+          · intro hw hk
+            have h1 := hw k; have h2 := List.count_pos_iff.mpr k4
+            have h3 : List.count k ((c.lru.pinned ++ [vict]).erase k) = 0 := by
+              rw [List.count_erase_self, List.count_append, List.count_singleton]
+              have : ¬ vict = k := fun e => kv e.symm
+              simp [this]; unfold Lru.cnt at h1; omega
+            exact absurd (List.count_pos_iff.mpr hk) (by simp only [] at h3 ⊢; omega)
+      · -- the unpinned key loses: evict it if the storage lets it go
+        simp only [] at h
+        split at h
+        · rename_i hr; cases h
+          have hnone := removeClosure_true hr
+          have hl := (removeClosure_lru cfg pins c k).1
+          have hk : c.lru.has k := (c.lru.has_iff k).mpr (Or.inr (Or.inr (Or.inr k4)))
+          have hd : DropRel c.lru (c.lru.remove k) (removeClosure cfg pins c k).1.st := Or.inr ⟨k, hnone, remove_cnt hk⟩
+          simp only [hl]
+          refine ⟨⟨hd.wf, hd.leaves, remove_caps k, ?_⟩, ?_⟩
+          · intro a ha; exact Or.inl (remove_pinned_sub _ _ _ ha)
+          · intro hw hkp
+            exact absurd ((Lru.has_iff _ k).mpr (Or.inr (Or.inr (Or.inr hkp)))) (remove_not_has k hw)
+        · rename_i hr; cases h
+          have hr : (removeClosure cfg pins c k).2 = false := by simpa using hr
+          obtain ⟨hst, v, hv, hpv⟩ := removeClosure_false hr
+          have hl := (removeClosure_lru cfg pins c k).1
+          refine ⟨⟨?_, ?_, ?_, ?_⟩, ?_⟩
+          · rw [hl]; exact fun h => h
+          · rw [hl]; exact fun a h1 h2 => absurd h1 h2
+          · rw [hl]; exact fun h => h
+          · rw [hl]; exact fun a ha => Or.inl ha
+          · intro _ _; rw [hst]; exact ⟨v, hv, hpv⟩
+
+/-! ### `Policy::attempt_to_trim_overflowing_pinned` -/
+
+theorem trimLoop_spec (cfg : Cfg σ) (pins : List Nat) (l : List Nat) (c : Core σ) :
+    (trimLoop cfg pins l c).2.lru = c.lru ∧
+    ∀ a, List.count a (trimLoop cfg pins l c).1 ≤ List.count a l ∧
+      (a ∈ l → a ∉ (trimLoop cfg pins l c).1 → sGet (trimLoop cfg pins l c).2.st a = none) := by
+  induction l generalizing c with
+  | nil => simp [trimLoop]
+  | cons k rest ih =>
+    unfold trimLoop
+    simp only []
+    split
+    · rename_i hr
+      have hnone := removeClosure_true hr
+      obtain ⟨i1, i2⟩ := ih (removeClosure cfg pins c k).1
+      refine ⟨by rw [i1, (removeClosure_lru cfg pins c k).1], ?_⟩
+      intro a
+      obtain ⟨j1, j2⟩ := i2 a
+      refine ⟨by rw [List.count_cons]; omega, ?_⟩
+      intro ha hna
+      by_cases hmem : a ∈ rest
+      · exact j2 hmem hna
+      · have : a = k := by simpa [hmem] using ha
+        subst this
+        have ev := trimLoop_evolves cfg pins rest (removeClosure cfg pins c a).1
+        cases hg : sGet (trimLoop cfg pins rest (removeClosure cfg pins c a).1).2.st a with
+        | none => rfl
+        | some v => have := ev.sub a v hg; rw [hnone] at this; cases this
+    · refine ⟨(removeClosure_lru cfg pins c k).1, ?_⟩
+      intro a
+      refine ⟨by simp only [List.count_append, List.count_cons, List.count_singleton, List.count_nil]; omega, ?_⟩
+      intro ha hna
+      exfalso; apply hna
+      simp only [List.mem_cons] at ha
+      simp only [List.mem_append, List.mem_singleton]
+      rcases ha with h | h
+      · exact Or.inr h
+      · exact Or.inl h
+
+theorem trim_polstep (cfg : Cfg σ) (pins : List Nat) (c : Core σ) : PolStep cfg pins c (trim cfg pins c) := by
+  unfold trim
+  obtain ⟨h1, h2⟩ := trimLoop_spec cfg pins c.lru.pinned c
+  simp only [h1]
+  refine ⟨?_, ?_, ?_, ?_⟩
+  · intro hw a; have := hw a; have := (h2 a).1; simp only [Lru.cnt] at *; omega
+  · intro a ha hna
+    unfold Lru.has Lru.cnt at ha hna
+    simp only [] at hna
+    apply (h2 a).2
+    · apply List.count_pos_iff.mp; omega
+    · intro hm; have := List.count_pos_iff.mpr hm; omega
+  · intro hc; exact ⟨hc.win, hc.main, hc.prot⟩
+  · intro a ha; left
+    apply List.count_pos_iff.mp
+    have := List.count_pos_iff.mpr ha; have := (h2 a).1
+    simp only [] at *; omega
+
+end QbiceVerif.TinyLfu
